@@ -427,6 +427,18 @@ class Machine:
             if isinstance(res_shared, dict) and "arg_unchanged" in res_shared:
                 ctx.check(res_shared["arg_unchanged"], "argument_array_unchanged", f"step {k} op={name} params={params} operand {entries[0]['typ']}")
             self.check_snapshots(f"{k}:{name}")
+            if name in SCRIBBLE_OPS and not (isinstance(res_shared, tuple) and len(res_shared) == 2 and res_shared[0] == "exc"):
+                # the caller edits, in place, the raw arrays this conversion handed out: neither the operand nor the answer
+                # to the same question asked again may move (no memoised result or internal table is handed out)
+                # (mprocess_views ends with the accessor hs(0), which hands out the stored matrix itself like Gate.hs)
+                n_edit = _scribble(res_shared[1:6] if name == "mprocess_views" else res_shared)
+                if n_edit:
+                    ctx.label("scribbled:" + name)
+                    self.check_snapshots(f"{k}:{name}:caller-edited-result")
+                    again = run_guarded(name, [e["obj"] for e in entries], params, self.env)
+                    ok2, _ = values_equal(canon_result(again), ca)
+                    ctx.check(ok2, "requery_after_caller_edit_unchanged",
+                              lambda: f"step {k} op={name} operands={idxs}: asking again after the caller edited the first answer gives {describe(canon_result(again))} instead of {describe(ca)}")
             for e in entries:
                 if e["uses"] > 0 and (e["expr"][0] == "op" or name.startswith("proj")):
                     self.nontrivial = True
@@ -456,6 +468,26 @@ class Machine:
         if self.n_bitwise_mismatch:
             ctx.label("not-bitwise")
         ctx.nontrivial(self.nontrivial)
+
+
+SCRIBBLE_OPS = {"eigenvalues", "density", "povm_matrices", "choi", "kraus", "process_matrix", "convert_basis",
+                "to_comp_basis", "mprocess_views"}
+
+
+def _scribble(r):
+    """in-place edit of every writable dense array found in a raw result (lists / tuples / dict values searched)."""
+    n = 0
+    if isinstance(r, np.ndarray):
+        if r.flags.writeable and r.size and r.dtype.kind in "fc":
+            r *= 0.5
+            r.flat[0] += 3.0
+            return 1
+        return 0
+    if isinstance(r, dict):
+        return sum(_scribble(v) for v in r.values())
+    if isinstance(r, (list, tuple)):
+        return sum(_scribble(v) for v in r)
+    return n
 
 
 def canon_cache(v):
